@@ -55,7 +55,8 @@ class Pair(Vector):
             if arg.rank > 1 and arg._numer_[0] == 2:
                 arg = arg.split_items(1, Pair)
 
-            arg = Pair(arg._values_, arg._mask_, example=arg)
+            arg = Pair(arg._values_, arg._mask_, derivs=arg._derivs_,
+                       example=arg)
             if recursive:
                 return arg
             return arg.wod
